@@ -330,7 +330,7 @@ def sphere_uv( n_lat : int = 30, n_long : int= 50, center : Vec = Vec(0.,0.,0.),
 
     # add other points
     for i in range(n_lat):
-        phi = np.pi * (i+1)/n_lat
+        phi = np.pi * (i+1)/(n_lat+1)
         for j in range(n_long):
             theta = 2*np.pi * j/n_long
             x = np.sin(phi)*np.cos(theta)
@@ -346,12 +346,12 @@ def sphere_uv( n_lat : int = 30, n_long : int= 50, center : Vec = Vec(0.,0.,0.),
         i0, i1 = i+1, (i+1)%n_long+1
         sp.faces.append((i0, 0, i1))
 
-        i0 = i + n_long * (n_lat - 2) + 1
-        i1 = (i + 1) % n_long + n_long * (n_lat - 2) + 1
+        i0 = i + n_long * (n_lat - 1) + 1
+        i1 = (i + 1) % n_long + n_long * (n_lat - 1) + 1
         sp.faces.append((len(sp.vertices)-1, i0, i1))
 
     # add rows of quads
-    for j in range(n_lat-2):
+    for j in range(n_lat-1):
         j0 = j*n_long + 1
         j1 = (j+1)* n_long + 1
         for i in range(n_long):
